@@ -2411,10 +2411,13 @@ namespace adept {
       }
       ExpressionSize<Rank> new_dims(0);
       ExpressionSize<Rank> new_offset;
+      // Number of times each dimension of the current array is used
+      ExpressionSize<Rank> n_used(0);
       for (int i = 0; i < Rank; ++i) {
 	if (idim[i] >= 0 && idim[i] < Rank) {
 	  new_dims[i] = dimensions_[idim[i]];
 	  new_offset[i] = offset_[idim[i]];
+	  ++n_used[idim[i]];
 	}
 	else {
 	  throw invalid_dimension("Dimensions must be in range 0 to Rank-1 in permute"
@@ -2422,7 +2425,9 @@ namespace adept {
 	}
       }
       for (int i = 0; i < Rank; ++i) {
-	if (new_dims[i] == 0) {
+	// A repeated dimension means another one is missing, and the
+	// resulting array would address memory outside this one
+	if (n_used[i] != 1 || new_dims[i] == 0) {
 	  throw invalid_dimension("Missing dimension in permute"
 				  ADEPT_EXCEPTION_LOCATION);
 	}
